@@ -1,63 +1,111 @@
-#!/usr/bin/env python
 """
-C20 / clause "A request counts as authenticated (Basic ...) IFF it carries
-credentials that verify against an entry of the configured user table".
+C20 / gateway trust: an untrusted client gets its X-Forwarded-Host honoured.
 
-With the documented default `encrypt=None` ("defaults to a md5 encryption")
-check_auth()/basic_auth() can never accept a Basic login: the default encoder
-is DIGEST_AUTH_ENCODERS['MD5'] = lambda val: md5(val).hexdigest(), which needs
-bytes, while _checkBasicResponse hands it the decoded str password.  The valid
-credentials of examples/web/authdemo.py (users = {'admin': md5(b'admin').hexdigest()})
-end in a TypeError -> 500 instead of an authenticated request.
+Setup: Server + VirtualHosts({'internal.example': 'secret'}, trusted_gateways=['127.0.0.2'])
+       + tools.ReverseProxy (the usual companion behind a gateway).
+The client connects from 127.0.0.1 (NOT a trusted gateway) and sends two requests on one
+connection, the second one while the first is still being answered.  HTTP._on_read finds
+the socket in self._clients and re-uses the Request object of the first message for the
+second one; by then ReverseProxy has replaced request.remote by the content of X-Real-IP
+(chosen by the client: the gateway's address), so VirtualHosts - although it runs above
+ReverseProxy - now sees a "trusted" peer and routes by X-Forwarded-Host.
 """
-import base64
+import socket
 import sys
-from hashlib import md5
+import time
 
-from circuits.web.headers import Headers
-from circuits.web.tools import basic_auth, check_auth
-from circuits.web.wrappers import Request, Response
+from circuits.web import Controller, Server, VirtualHosts
+from circuits.web.tools import ReverseProxy
 
-REALM = 'Test'
-USERS = {'admin': md5(b'admin').hexdigest()}     # exactly examples/web/authdemo.py
-
-
-def mk(user, password):
-    cred = base64.b64encode(('%s:%s' % (user, password)).encode()).decode()
-    req = Request(None, 'GET', 'http', '/', (1, 1), '', headers=Headers([('Host', 'x'), ('Authorization', 'Basic ' + cred)]))
-    return req, Response(req)
+GATEWAY = '127.0.0.2'
+log = []
 
 
-def attempt(fn, user, password):
-    req, res = mk(user, password)
-    try:
-        r = fn(req, res, REALM, USERS)      # encrypt left at its default (None -> md5)
-    except Exception as e:
-        return 'raises %s: %s' % (type(e).__name__, e), req.login
-    return r, req.login
+class Root(Controller):
+    def index(self):
+        log.append('public')
+        return 'PUBLIC'
 
 
-bad = []
-r, login = attempt(check_auth, 'admin', 'admin')
-print("check_auth, admin/admin (in the table, md5 of the password matches) -> %r, request.login=%r" % (r, login))
-if r is not True or login != 'admin':
-    bad.append('valid Basic credentials are not accepted by check_auth with the default encrypt: %r' % (r,))
+class Secret(Controller):
+    channel = '/secret'
 
-r, login = attempt(basic_auth, 'admin', 'admin')
-print("basic_auth, admin/admin -> %r, request.login=%r   (None means: go ahead)" % (r, login))
-if r is not None or login != 'admin':
-    bad.append('valid Basic credentials are not accepted by basic_auth with the default encrypt: %r' % (r,))
+    def index(self):
+        log.append('internal')
+        return 'INTERNAL-ONLY'
 
-r, login = attempt(check_auth, 'admin', 'wrong')
-print("check_auth, admin/wrong -> %r, request.login=%r" % (r, login))
-if r is not False:
-    bad.append('a wrong password is not answered with False but: %r' % (r,))
 
-if bad:
-    print()
-    print('VIOLATION: authenticated <=> verifying credentials fails in the "if" direction:')
-    for b in bad:
-        print('  -', b)
+app = Server(('127.0.0.1', 0), display_banner=False)
+VirtualHosts({'internal.example': 'secret'}, trusted_gateways=[GATEWAY]).register(app)
+ReverseProxy().register(app)
+Root().register(app)
+Secret().register(app)
+app._running = True
+for _ in range(20):
+    app.tick(0.01)
+port = app.server._sock.getsockname()[1]
+
+SPOOF = (
+    'GET / HTTP/1.1\r\nHost: public.example\r\n'
+    'X-Real-IP: %s\r\nX-Forwarded-Host: internal.example\r\n\r\n' % GATEWAY
+).encode()
+PLAIN = b'GET / HTTP/1.1\r\nHost: public.example\r\n\r\n'
+
+
+def exchange(src, first, second=None, ticks_between=0, wait=0.6):
+    del log[:]
+    c = socket.socket()
+    c.bind((src, 0))
+    c.connect(('127.0.0.1', port))
+    c.setblocking(False)
+    c.sendall(first)
+    if second is not None:
+        for _ in range(ticks_between):
+            app.tick(0.005)
+        c.sendall(second)
+    buf = b''
+    end = time.time() + wait
+    while time.time() < end:
+        app.tick(0.005)
+        try:
+            d = c.recv(65536)
+            if not d:
+                break
+            buf += d
+        except BlockingIOError:
+            pass
+    c.close()
+    for _ in range(6):
+        app.tick(0.005)
+    return buf.decode('latin-1')
+
+
+# controls ---------------------------------------------------------------
+try:
+    r = exchange(GATEWAY, SPOOF.replace(b'X-Real-IP: ' + GATEWAY.encode() + b'\r\n', b''))
+    print('control 1: the trusted gateway %s with X-Forwarded-Host -> %s'
+          % (GATEWAY, 'INTERNAL-ONLY' if 'INTERNAL-ONLY' in r else 'PUBLIC'))
+except OSError as e:
+    print('control 1 skipped (cannot bind %s: %s)' % (GATEWAY, e))
+r = exchange('127.0.0.1', SPOOF)
+single = 'INTERNAL-ONLY' in r
+print('control 2: 127.0.0.1 (untrusted), one request with X-Forwarded-Host + X-Real-IP: %s -> %s'
+      % (GATEWAY, 'INTERNAL-ONLY' if single else 'PUBLIC (header ignored, as it must be)'))
+
+# the schedule --------------------------------------------------------------
+hit = None
+for n in range(0, 16):
+    r = exchange('127.0.0.1', SPOOF, PLAIN, ticks_between=n)
+    if 'INTERNAL-ONLY' in r:
+        hit = n
+        print('127.0.0.1 (untrusted): second request sent %d loop iterations after the first' % n)
+        print('   handlers that ran: %s' % log)
+        print('   responses received: %s' % [b for b in ('PUBLIC', 'INTERNAL-ONLY') if b in r])
+        break
+
+if single or hit is not None:
+    print('VIOLATION (C20): X-Forwarded-Host of a client that is not a trusted gateway '
+          'decided the virtual host: it was served the content of internal.example')
     sys.exit(1)
-print('OK')
+print('OK: X-Forwarded-Host from 127.0.0.1 never influenced the routing')
 sys.exit(0)
